@@ -1,6 +1,7 @@
 package main
 
 import (
+	"crypto/md5"
 	"fmt"
 	"runtime/debug"
 	"sort"
@@ -45,6 +46,7 @@ type SeqCtx struct {
 	depthDone int
 	caseNo    int64
 	known     map[string]*Violation
+	seenBase int64 // states counted before the last ResetSeen
 	// cases that violated during the search but not on their own (see Fail)
 	unreproduced int
 	// OpsPrefix is put in front of the operations of a violation (the parameters a job loops over outside bfs),
@@ -87,11 +89,24 @@ func (c *SeqCtx) Case(steps int, nontrivial bool, sample func() string) {
 
 // State records a canonical state; it returns true when the state is new.
 func (c *SeqCtx) State(key string) bool {
+	if len(key) > 32 {
+		// long keys (whole reference states, histories) are kept as 128-bit digests: a job of 10^8 states then fits
+		// into a worker's memory limit; two different keys with one digest have probability ~10^-22 at that size
+		d := md5.Sum([]byte(key))
+		key = string(d[:])
+	}
 	if _, ok := c.seen[key]; ok {
 		return false
 	}
 	c.seen[key] = struct{}{}
 	return true
+}
+
+// ResetSeen forgets the states seen so far (a job that runs several independent searches whose keys cannot meet)
+// and keeps their number for the statistics.
+func (c *SeqCtx) ResetSeen() {
+	c.seenBase += int64(len(c.seen))
+	c.seen = map[string]struct{}{}
 }
 
 // Outcome counts an observed outcome class.
@@ -191,7 +206,7 @@ func runSeqJob(job *SeqJob, shard, nshards int, budget time.Duration) *seqResult
 		ctx.deadline = start.Add(budget)
 	}
 	job.Run(ctx)
-	ctx.st.States = int64(len(ctx.seen))
+	ctx.st.States = int64(len(ctx.seen)) + ctx.seenBase
 	if ctx.st.States == 0 {
 		ctx.st.States = ctx.st.Executions
 	}
@@ -256,6 +271,7 @@ func bfs(ctx *SeqCtx, alphabet []string, depth int, exec func(hist []int) (claus
 		return out
 	}
 	bonus := false
+	bonusPossible := BonusBudget > 0 && !ctx.job.NoBonus
 	var saved time.Time
 	defer func() {
 		if bonus {
@@ -286,8 +302,8 @@ func bfs(ctx *SeqCtx, alphabet []string, depth int, exec func(hist []int) (claus
 					}
 					continue // a listed known finding: do not expand this state
 				}
-				if ctx.State(key) {
-					next = append(next, nh)
+				if ctx.State(key) && (d < depth || (d == depth && !bonus && bonusPossible)) {
+					next = append(next, nh) // (the last level that is searched is not expanded: no frontier is kept for it)
 				}
 			}
 		}
